@@ -216,7 +216,7 @@ class StatelessClassRule(BaseLintRule):  # thailint: ignore[srp,dry]
             return False
 
         # Check first lines for ignore-file directive
-        lines = context.file_content.splitlines()[:HEADER_SCAN_LINES]
+        lines = context.file_content.split("\n")[:HEADER_SCAN_LINES]
         return any(self._is_file_ignore_directive(line) for line in lines)
 
     def _is_file_ignore_directive(self, line: str) -> bool:
@@ -420,7 +420,7 @@ class StatelessClassRule(BaseLintRule):  # thailint: ignore[srp,dry]
         if not context.file_content:
             return None
 
-        lines = context.file_content.splitlines()
+        lines = context.file_content.split("\n")
         if line_num <= 0 or line_num > len(lines):
             return None
 
